@@ -21,6 +21,7 @@ mod c14;
 mod c15;
 mod c17;
 mod c18;
+mod c20;
 mod alloc;
 
 #[global_allocator]
@@ -65,6 +66,7 @@ fn main() {
     "C15" => c15::run(&ctx),
     "C17" => c17::run(&ctx),
     "C18" => c18::run(&ctx),
+    "C20" => c20::run(&ctx),
     _ => {
       eprintln!("unknown property {}", prop);
       std::process::exit(2);
